@@ -1,5 +1,7 @@
 // Language `qt`: differential validation of the Lean sub-models of Qt value classes.
 #include "common.h"
+#include <QDir>
+#include <QUrl>
 #include <qhttpengine/ibytearray.h>
 #include <qhttpengine/socket.h>
 using namespace QHttpEngine;
@@ -12,7 +14,8 @@ void runQt(const Scn &scn, Out &out)
     foreach (const QString &t, scn.toks) {
         QStringList p = t.split(':');
         const QString &op = p[0];
-        if (op == "lower") out.obs << "b:" + hx(unhx(p[1]).toLower());
+        if (false) {}
+        else if (op == "lower") out.obs << "b:" + hx(unhx(p[1]).toLower());
         else if (op == "trim") out.obs << "b:" + hx(unhx(p[1]).trimmed());
         else if (op == "toll") out.obs << "i:" + QString::number(unhx(p[1]).toLongLong());
         else if (op == "toint") out.obs << "i:" + QString::number(unhx(p[1]).toInt());
@@ -28,6 +31,9 @@ void runQt(const Scn &scn, Out &out)
         else if (op == "mvals") { QStringList l; foreach (const QByteArray &x, m.values(unhx(p[1]))) l << hx(x); out.obs << "l:" + (l.isEmpty() ? QString("-") : l.join(",")); }
         else if (op == "mcnt") out.obs << "i:" + QString::number(m.count(unhx(p[1])));
         else if (op == "mhas") out.obs << "i:" + QString::number(m.contains(unhx(p[1])) ? 1 : 0);
+        else if (op == "b64") out.obs << "b:" + hx(QByteArray::fromBase64(unhx(p[1])));
+        else if (op == "pct") out.obs << "b:" + hx(QUrl::fromPercentEncoding(unhx(p[1])).toUtf8());
+        else if (op == "clean") out.obs << "b:" + hx(QDir::cleanPath(QString::fromUtf8(unhx(p[1]))).toUtf8());
         else out.obs << "badop";
     }
 }
